@@ -17,14 +17,23 @@ def run(d):
         return tag, {'apply_failed': r.stdout + r.stderr}
     env = dict(os.environ, FXLINT_REPO=sc, FXLINT_EVIDENCE_DIR=sc + '/ev')
     res = {}
-    for p in props:
+    plist = props
+    if OWN_ONLY:
+        import re as _re
+        mp = d + '/meta.json'
+        own = (json.load(open(mp)).get('property') if os.path.exists(mp) else None) or _re.search(r'C\d\d', tag).group(0)
+        plist = [own]
+    for p in plist:
         r = subprocess.run([V + '/check', p], env=env, capture_output=True, text=True, cwd=V)
         rules = sorted({l.split()[1].rstrip(':') for l in r.stdout.splitlines() if l.startswith('  rule ')})
         res[p] = {'exit': r.returncode, 'rules': rules}
     shutil.rmtree(sc, ignore_errors=True)
     return tag, res
 
-dirs = sorted(d for d in glob.glob(V + '/seeded/*') if os.path.isdir(d)) + sorted(d for d in glob.glob(V + '/benign/*') if os.path.isdir(d))
+OWN_ONLY = '--own' in sys.argv          # seeded changes: run only the check of the property the change was written to break (merged into the stored row)
+if OWN_ONLY:
+    sys.argv.remove('--own')
+dirs = sorted(d for d in glob.glob(V + '/seeded/*') if os.path.isdir(d)) + ([] if OWN_ONLY else sorted(d for d in glob.glob(V + '/benign/*') if os.path.isdir(d)))
 if len(sys.argv) > 1:
     dirs = [d for d in dirs if any(a in d for a in sys.argv[1:])]
 out = {}
@@ -36,7 +45,14 @@ with ThreadPoolExecutor(15) as ex:
         print(tag, 'fired', fired, 'exit2', err, flush=True)
 mp = V + '/seeded/MATRIX.json'
 old = json.load(open(mp)) if os.path.exists(mp) and len(sys.argv) > 1 else {}
-old.update(out)
+if OWN_ONLY:
+    for tag, res in out.items():
+        if 'apply_failed' in res or tag not in old or 'apply_failed' in old[tag]:
+            old[tag] = res if 'apply_failed' in res or tag not in old else dict(old[tag], **res) if 'apply_failed' not in old[tag] else res
+        else:
+            old[tag] = dict(old[tag], **res)
+else:
+    old.update(out)
 json.dump(old, open(mp, 'w'), indent=1, sort_keys=True)
 with open(V + '/benign/MATRIX.md', 'w') as fh:
     fh.write('| behaviour-preserving variant | checks that raise an alarm (must be none) | exit 2 |\n|---|---|---|\n')
